@@ -22,6 +22,7 @@ import time
 
 HERE = os.path.dirname(os.path.dirname(os.path.abspath(__file__)))
 REPO = os.environ.get("VERIF_REPO", "/repo")
+CHECK_TIMEOUT_S = 1500
 sys.path.insert(0, HERE)
 
 from tools.mutant_catalogue import MUTANTS          # noqa: E402
@@ -79,8 +80,15 @@ def run_checks(base, props, tier, out):
     for prop in props:
         t0 = time.time()
         env = dict(os.environ, VERIF_REPO=base, VERIF_OUT=out, VERIF_TIER=tier)
-        r = subprocess.run([os.path.join(HERE, "check"), prop, "--tier", tier], cwd=HERE, env=env,
-                           stdout=subprocess.PIPE, stderr=subprocess.STDOUT, text=True)
+        try:
+            r = subprocess.run([os.path.join(HERE, "check"), prop, "--tier", tier], cwd=HERE, env=env,
+                               stdout=subprocess.PIPE, stderr=subprocess.STDOUT, text=True, timeout=CHECK_TIMEOUT_S,
+                               start_new_session=True)
+        except subprocess.TimeoutExpired as e:
+            subprocess.run(["pkill", "-f", f"check {prop} --tier {tier}"])
+            results[prop] = {"exit": 3, "violations": 0, "wall_s": round(time.time() - t0, 1), "first_bucket": None,
+                             "tail": f"check did not finish within {CHECK_TIMEOUT_S} s"}
+            continue
         vio = [l for l in r.stdout.splitlines() if l.startswith("VIOLATION")]
         buckets = [l.strip() for l in r.stdout.splitlines() if l.strip().startswith("bucket=")]
         results[prop] = {"exit": r.returncode, "violations": len(vio), "wall_s": round(time.time() - t0, 1),
